@@ -53,6 +53,8 @@ ACES_IOS = [
     "permit ip object-group GEDGE any", "permit ip object-group GALL3 any",
     # TCP flags written after a log keyword
     "permit tcp any any log syn", "permit tcp any any ack log rst",
+    # the other log keyword, alone, after and before a flag
+    "permit tcp any any log-input", "permit tcp any any syn log-input", "permit tcp any any log-input ack",
     # wildcards with many non-contiguous bits and a lowest mask bit of 0 (256 networks), hosts inside and outside them
     "permit ip 10.0.0.1 0.0.255.0 any", "permit ip host 10.0.5.1 any", "permit ip host 10.0.5.2 any", "permit ip 10.0.0.0 0.0.4.0 any",
     "permit ip 10.0.0.0 128.0.0.255 any", "permit ip 138.0.0.0 0.0.0.255 any", "permit ip 10.0.0.0 0.0.1.0 any", "permit ip 10.0.1.0 0.0.0.0 any",
